@@ -5,14 +5,40 @@
 
 static work_queue_t wq;
 static long quota;
-static int cur_round;
-static vp_counter_t *c_push, *c_start, *c_items, *c_sessions_multi, *c_rounds, *c_empty;
+static int cur_round, micro_round;
+static pthread_t worker0;
+static _Atomic int worker0_known, early_stop;
+static vp_counter_t *c_push, *c_start, *c_items, *c_sessions_multi, *c_rounds, *c_empty, *c_held;
 
 // ops: PUSH val (res OK = QUEUED, ABORT = START_WORKING), POP (get_work) res OK val / EMPTY
 static void round_fn(ds_worker_t* w) {
   uint64_t seq = 0;
   ds_start_line();
-  while ((long)seq < quota) {
+  // micro rounds: a handful of pushes in all, the late pushers arriving while the first one is finishing its session; nobody pushes
+  // afterwards, so an item left behind by a miscounted hand-over stays behind
+  if (w->id == 0) {
+    worker0 = pthread_self();
+    atomic_store(&worker0_known, 1);
+  }
+  // micro rounds: the first thread pushes and drains on its own until it is told to stop; in preempt runs it is interrupted wherever
+  // it happens to be in a session (as the OS could) and held there while each late thread does its single push. Nobody pushes
+  // afterwards, so an item left behind by a miscounted hand-over stays behind.
+  long my_quota = quota;
+  if (micro_round) {
+    if (w->id == 0) {
+      my_quota = 1000000;
+    } else if (w->id == 1) {
+      my_quota = 1;
+      ds_tiny_delay(&w->rng, 2000);
+      if (atomic_load(&worker0_known) && vp_preempt_now(worker0)) vp_add(c_held, 1);
+      atomic_store(&early_stop, 1);
+    } else {
+      my_quota = 1;
+      while (!atomic_load(&early_stop)) {
+      }
+    }
+  }
+  while ((long)seq < my_quota && !(micro_round && w->id == 0 && atomic_load(&early_stop))) {
     const uint64_t val = ((uint64_t)(w->id + 1) << 40) | ++seq;
     work_queue_item_t* it = (work_queue_item_t*)malloc(sizeof(*it));
     it->data = (void*)(uintptr_t)val;
@@ -86,12 +112,21 @@ void ds_sub_wq(void) {
   c_sessions_multi = vp_counter("wq_sessions_with_items_of_other_pushers");
   c_empty = vp_counter("wq_empty");
   c_rounds = vp_counter("wq_rounds");
+  c_held = vp_counter("wq_first_pusher_interrupted_mid_session");
   uint64_t rng = vp_mix(vp_cfg.seed, 1717);
   wq_sequential_prefix();
-  for (cur_round = 0; cur_round < rounds; ++cur_round) {
-    const int T = 1 + (int)(vp_rand(&rng) % (unsigned)ds_nworkers);
+  const long micro = vp_param("micro", 1500);
+  for (cur_round = 0; cur_round < rounds + micro; ++cur_round) {
+    int T = 1 + (int)(vp_rand(&rng) % (unsigned)ds_nworkers);
     quota = ops / T;
     if (quota < 1) quota = 1;
+    micro_round = cur_round >= rounds;
+    atomic_store(&early_stop, 0);
+    if (micro_round) {
+      T = ds_nworkers < 2 ? 1 : 2 + (int)(vp_rand(&rng) % (unsigned)(ds_nworkers > 4 ? 3 : ds_nworkers - 1));
+      quota = 1 + (long)(vp_rand(&rng) % 3);
+      vp_count("wq_micro_rounds", 1);
+    }
     work_queue_init(&wq);
     int i;
     for (i = 0; i < T; ++i) vp_log_reset(&ds_w[i].log);
